@@ -276,7 +276,8 @@ def case_series(rng):
             a[i] = 360.0 if up else a[i]  # an instrument reporting 360.0 itself
     tg = np.sort(tg)
     return {"part": "series", "time": t, "dir": a, "lon": (b + 180) % 360 - 180,
-            "lat": rng.uniform(-60, 60, n), "hs": rng.uniform(0, 5, n), "targets": tg}
+            "lat": rng.uniform(-60, 60, n), "hs": rng.uniform(0, 5, n), "targets": tg,
+            "nan_at": int(rng.integers(0, n)) if (n >= 4 and rng.uniform() < 0.3) else None}
 
 
 def judge_series(ctx, c):
@@ -289,11 +290,20 @@ def judge_series(ctx, c):
     tg = np.asarray(c["targets"]).astype("int64")
     d, lon, lat, hs = (np.asarray(c[k], float) for k in ("dir", "lon", "lat", "hs"))
     inside = (tg >= t[0]) & (tg <= t[-1])
+    if c.get("nan_at") is not None and len(t) >= 4:
+        # one missing direction sample: intervals that do not touch it are interpolated as before (those that do are
+        # not judged)
+        d = d.copy()
+        jn = int(c["nan_at"]) % len(t)
+        d[jn] = np.nan
+        j0 = np.clip(np.searchsorted(t, tg, side="right") - 1, 0, len(t) - 2)
+        inside = inside & np.isfinite(d[j0]) & np.isfinite(d[j0 + 1])
+        ctx.count("C14.series_with_a_missing_direction_sample")
     crossing = bool(np.any(np.abs(np.diff(lon)) > 180))
-    ctx.count("C14.pairs_straddling_seam", int((np.abs(np.diff(d)) > 180).sum()))
+    ctx.count("C14.pairs_straddling_seam", int((np.abs(np.diff(np.where(np.isnan(d), 0.0, d))) > 180).sum()))
     ctx.case(("series", "cross" if crossing else "plain", len(t)), nontrivial=bool(inside.any()),
              sample={"time": t[:5], "direction": d[:5], "longitude": lon[:5], "targets": tg[:5]})
-    want_d = shortest_arc_linear(t.astype(float), d, tg.astype(float))
+    want_d = shortest_arc_linear(t.astype(float), np.where(np.isnan(d), 0.0, d), tg.astype(float))
     # (1) interpolate_periodic directly
     ok, got = guarded(ctx, "C14.no-exception",
                       lambda: interpolate_periodic(t.astype(float), d, tg.astype(float), fp_period=360, fp_discont=360),
@@ -301,7 +311,8 @@ def judge_series(ctx, c):
     if ok:
         got = np.asarray(got, float)
         ctx.check("C14.interpolate_periodic==shortest-arc-linear",
-                  bool(np.all(np.abs(circ_diff(got[inside], want_d[inside])) <= 1e-9) and np.all(np.isnan(got[~inside]))
+                  bool(np.all(np.abs(circ_diff(got[inside], want_d[inside])) <= 1e-9)
+                       and np.all(np.isnan(got[(tg < t[0]) | (tg > t[-1])]))
                        and np.all((got[inside] >= 0) & (got[inside] < 360))), c,
                   {"got": got, "want": want_d % 360}, key="C14:interpolate_periodic")
     # (2) data frame
